@@ -927,6 +927,14 @@ class NNDescent:
                         raise ValueError(
                             "The shapes of init graph and init distances do not match!"
                         )
+                    elif self._distance_correction is not None:
+                        # init_dist holds values of the metric itself, but for this
+                        # metric the heap holds a surrogate (e.g. squared euclidean)
+                        # that is only corrected on read-out: recompute the seeds in
+                        # the heap's own scale instead of mixing the two
+                        _init_graph = initalize_heap_from_graph_indices(
+                            _init_graph, init_graph, data, self._distance_func
+                        )
                     else:
                         _init_graph = initalize_heap_from_graph_indices_and_distances(
                             _init_graph, init_graph, init_dist
